@@ -286,13 +286,13 @@ def _run_chunk(exe, lines, env=None, timeout=600, crash_marker='{"err":"crash"}'
     return results[: len(lines)]
 
 
-def run_cases(exe, cases, jobs=None, env=None, timeout=900):
+def run_cases(exe, cases, jobs=None, env=None, timeout=900, per_chunk=10):
     """cases: list of JSON-able objects. Returns list of decoded results, same order."""
     jobs = jobs or NPROC
     lines = [json.dumps(c, separators=(",", ":")) for c in cases]
     if not lines:
         return []
-    n = max(1, min(jobs, (len(lines) + 9) // 10))
+    n = max(1, min(jobs, (len(lines) + per_chunk - 1) // per_chunk))
     chunks = [lines[i::n] for i in range(n)]
     with ThreadPoolExecutor(max_workers=n) as ex:
         outs = list(ex.map(lambda ch: _run_chunk(exe, ch, env=env, timeout=timeout), chunks))
